@@ -1,6 +1,6 @@
 import Iscp.Model.Multi
 import Driver.Util
-/- topic `multi` (C19): new <initial> <m1,m2,..> · select id · write hex · asun · np · mread m hex · readall n · readnone · close · counters
+/- topic `multi` (C19): new <initial> <m1,m2,..> · select id · write hex · asun · np · mread m hex · mburst m n · readall n · readnone · close · counters
    · rrnew ids · rrget · luget -/
 namespace Driver.Multi
 open Iscp Iscp.Multi Driver
@@ -57,6 +57,10 @@ def step (d : D) (line : String) : D × String :=
       | ["np"] => (d, showOut (deref s))
       | ["mread", m, h] => (match bytesOfHex h with
           | some b => upd (memberRead s (m.toNat?.getD 0) b, .ok) | none => (d, "bad-op"))
+      | ["mburst", m, n] =>
+        let mm := m.toNat?.getD 0
+        let s' := (List.range (n.toNat?.getD 0)).foldl (fun s k => memberRead s mm [mm % 256, k % 256, k / 256]) s
+        ({ d with s := some s' }, "ok")
       | ["readall", n] =>
         let (s', l) := takeN (n.toNat?.getD 0) s []
         ({ d with s := some s' }, "got " ++ joinWith "," (sortStr l))
